@@ -29,11 +29,21 @@ PINS = {
     'C04': [('pyworkers/thread.py', 'ThreadWorker.is_alive'), ('pyworkers/thread.py', 'ThreadWorker.wait'), ('pyworkers/thread.py', 'ThreadWorker.terminate'),
             ('pyworkers/process.py', 'ProcessWorker.is_alive'), ('pyworkers/process.py', 'ProcessWorker.wait'), ('pyworkers/process.py', 'ProcessWorker.terminate'),
             ('pyworkers/persistent_process.py', 'PersistentProcessWorker.wait'), ('pyworkers/persistent_process.py', 'PersistentProcessWorker.close'),
-            ('pyworkers/persistent_process.py', 'PersistentProcessWorker._release_child'), ('pyworkers/utils.py', 'PipeEndpoint')],
+            ('pyworkers/persistent_process.py', 'PersistentProcessWorker._release_child'), ('pyworkers/utils.py', 'PipeEndpoint'),
+            ('pyworkers/persistent_thread.py', 'PersistentThreadWorker.wait'), ('pyworkers/persistent_thread.py', 'PersistentThreadWorker.close'),
+            ('pyworkers/persistent_thread.py', 'PersistentThreadWorker._release_child')],
     'C11': [('pyworkers/remote_server.py', 'RemoteServer.run'), ('pyworkers/remote_server.py', 'RemoteServer.__init__')],
     'C18': [('pyworkers/remote_server.py', 'RemoteServer.run'), ('pyworkers/remote_context.py', 'RemoteContext')],
     'C20': [('pyworkers/remote.py', 'RemoteWorker._start'), ('pyworkers/remote.py', 'RemoteWorker._run_frontend'), ('pyworkers/remote.py', 'RemoteWorker.__setstate__'),
             ('pyworkers/process.py', 'ProcessWorker._start'), ('pyworkers/thread.py', 'ThreadWorker._start')],
+    'C09': [('pyworkers/pool.py', 'Pool.add_worker'), ('pyworkers/pool.py', 'Pool.attach'), ('pyworkers/pool.py', 'Pool._close'),
+            ('pyworkers/pool.py', 'Pool.close'), ('pyworkers/pool.py', 'Pool.terminate'), ('pyworkers/pool.py', 'Pool.__exit__'),
+            ('pyworkers/pool.py', 'Pool.restart_workers'), ('pyworkers/pool.py', 'Pool.run'), ('pyworkers/persistent.py', 'PersistentWorker.restart')],
+    'C17': [('pyworkers/persistent.py', 'PersistentWorker.restart'), ('pyworkers/persistent.py', 'PersistentWorker.__init__'),
+            ('pyworkers/worker.py', 'Worker._get_restart_args'), ('pyworkers/remote.py', 'RemoteWorker._get_restart_args'),
+            ('pyworkers/pool.py', 'Pool.restart_workers'),
+            ('pyworkers/persistent_thread.py', 'PersistentThreadWorker.__init__'), ('pyworkers/persistent_process.py', 'PersistentProcessWorker.__init__'),
+            ('pyworkers/persistent_thread.py', 'PersistentThreadWorker.wait'), ('pyworkers/persistent_process.py', 'PersistentProcessWorker.wait')],
     'C05': [('pyworkers/persistent.py', 'PersistentWorker.next_result'), ('pyworkers/persistent.py', 'PersistentWorker.results_iter'),
             ('pyworkers/persistent.py', 'PersistentWorker.call')],
 }
